@@ -90,3 +90,36 @@ static sem_result check_reified(const sat_core &sat, const std::vector<lbool> &A
     }
   return r;
 }
+
+static bool all_of(unsigned long s, const std::vector<lit> &ls) { for (auto &l : ls) if (!sg(s, l)) return false; return true; }
+static bool any_of(unsigned long s, const std::vector<lit> &ls) { for (auto &l : ls) if (sg(s, l)) return true; return false; }
+static size_t count_of(unsigned long s, const std::vector<lit> &ls) { std::set<size_t> t; for (auto &l : ls) if (sg(s, l)) t.insert(index(l)); return t.size(); }
+// two requests in sequence: each literal keeps the meaning of its formula in every model of the final network, and every
+// assignment of the pre-existing variables extends to a model in which each literal whose formula holds is true
+struct pair_result { bool ok; std::string why; };
+static pair_result check_pair(const sat_core &sat, const std::vector<lbool> &A0, const lit &r1, const std::function<bool(unsigned long)> &F1, bool imp1,
+                              const lit &r2, const std::function<bool(unsigned long)> &F2, bool imp2)
+{
+  pair_result r{true, ""};
+  size_t n0 = A0.size(), n1 = sat.assigns.size();
+  for (size_t v = 0; v < n0; v++) if (sat.assigns[v] != A0[v]) { r.ok = false; r.why += " root value of b" + std::to_string(v) + " changed;"; }
+  for (unsigned long s = 0; s < (1ul << n1); s++)
+    if (sg_ext(s, sat.assigns) && sg_sat_db(s, sat, 0))
+    {
+      bool f1 = F1(s), v1 = sg(s, r1), f2 = F2(s), v2 = sg(s, r2);
+      if (imp1 ? (v1 && !f1) : (v1 != f1)) { r.ok = false; r.why += " model sigma=" + std::to_string(s) + ": first literal " + std::to_string(v1) + " but its formula " + std::to_string(f1) + ";"; break; }
+      if (imp2 ? (v2 && !f2) : (v2 != f2)) { r.ok = false; r.why += " model sigma=" + std::to_string(s) + ": second literal " + std::to_string(v2) + " but its formula " + std::to_string(f2) + ";"; break; }
+    }
+  for (unsigned long s0 = 0; s0 < (1ul << n0); s0++)
+    if (sg_ext(s0, A0))
+    {
+      bool found = false;
+      for (unsigned long x = 0; x < (1ul << (n1 - n0)) && !found; x++)
+      {
+        unsigned long s = s0 | (x << n0);
+        found = sg_ext(s, sat.assigns) && sg_sat_db(s, sat, 0) && (!F1(s) || sg(s, r1)) && (!F2(s) || sg(s, r2));
+      }
+      if (!found) { r.ok = false; r.why += " assignment sigma0=" + std::to_string(s0) + " of the existing variables cannot be extended with every satisfied construct's literal true;"; break; }
+    }
+  return r;
+}
